@@ -184,6 +184,26 @@ def generate(rng, tier="quick"):
                 fs[path] = ent
     if not use_stdin and len(instances) >= 2 and rng.random() < 0.12:
         instances.append(rng.choice(instances))          # the same path may be listed twice
+    realfs = False
+    if not use_stdin and base_uri is None and rng.random() < 0.08 and \
+            all(e.get("fault") in (None, "fs_torn", "fs_bitflip", "fs_empty", "fs_bad_utf8", "fs_bom", "fs_trailing_garbage",
+                                   "invalid") and not e.get("short_reads") for e in fs.values() if isinstance(e, dict)):
+        # the same scenario on a REAL directory (the child chdir()s into a scratch dir holding these files; `open`
+        # is not injected): whatever file-system API the CLI uses sees the same world.  Some listed names contain
+        # shell-pattern characters, next to a sibling file that such a pattern would match.
+        realfs = True
+        if instances and rng.random() < 0.6:
+            j = rng.randrange(len(instances))
+            old = instances[j]
+            ch = rng.choice("123ab")
+            new = old.replace("-", rng.choice(["[%s]-" % ch, "?-", "[%s%s]-" % (ch, ch)]), 1)
+            sib = old.replace("-", ch + "-", 1)
+            instances = [new if p == old else p for p in instances]
+            if old in fs:
+                fs[new] = fs.pop(old)
+            # the sibling is NOT listed; it is valid where the listed file is not, or the other way round
+            fs[sib] = {"bytes": b64(rng.choice([b"[]", b"{}", b"0", b"[1, 2, 3]", b"{\"a\": {\"b\": 7}}", b"not json"])),
+                       "fault": None}
     output = rng.choice(["plain", "plain", "plain", "pretty"])
     error_format = None
     if output == "plain" and rng.random() < 0.65:
@@ -191,6 +211,7 @@ def generate(rng, tier="quick"):
     return {"property": PROPERTY, "fs": fs, "schema_path": spath, "instances": [] if use_stdin else instances,
             "stdin": use_stdin, "output": output, "error_format": error_format, "validator": validator,
             "base_uri": base_uri, "netdocs": netdocs, "draft": draft,
+            "realfs": realfs,
             "crosscheck": bool(tier == "thorough" and rng.random() < 0.01)}
 
 
@@ -300,7 +321,19 @@ def execute(scn):
     router = Router().install(False)
     router.default = SimTransport(scn.get("netdocs", {}))
     sim_open, textfile, opened = make_fs(scn, stats)
-    cli.open = sim_open
+    tmpdir = None
+    if scn.get("realfs"):
+        import os
+        import tempfile
+        tmpdir = tempfile.mkdtemp(prefix="dsim-c19-realfs-")
+        for pth, ent in scn["fs"].items():
+            if isinstance(ent, dict) and pth != "<stdin>":
+                with open(os.path.join(tmpdir, pth), "wb") as fh:
+                    fh.write(unb64(ent["bytes"]))
+        os.chdir(tmpdir)
+        probe("real_directory_runs")
+    else:
+        cli.open = sim_open
     out, err = io.StringIO(), io.StringIO()
     stdin = textfile(scn["fs"]["<stdin>"]) if scn["stdin"] else io.StringIO("")
     argv = argv_of(scn)
@@ -316,6 +349,14 @@ def execute(scn):
     except Exception as x:
         escaped = canon_exc(x)
     stdout, stderr = out.getvalue(), err.getvalue()
+    if tmpdir is not None:
+        import os
+        import shutil
+        os.chdir("/")
+        shutil.rmtree(tmpdir, ignore_errors=True)
+        # on a real directory "was this path opened" is not observable: the per-file oracles below cover it
+        opened.extend(scn["instances"])
+        opened.append(scn["schema_path"])
 
     # ---------------------------------------------------------------- model
     weak = False            # outside the property's quantifier: only "must not report success"
